@@ -20,6 +20,7 @@ import (
 	"crypto/tls"
 	"errors"
 	"io"
+	"io/ioutil"
 	"net"
 	"net/http"
 	"net/http/httputil"
@@ -232,6 +233,10 @@ func (p *Proxy) Serve(l net.Listener) error {
 	}
 }
 
+// lingerTimeout bounds how long a connection that the proxy has finished writing to is kept
+// open to absorb what the client is still sending.
+const lingerTimeout = 500 * time.Millisecond
+
 func (p *Proxy) handleLoop(conn net.Conn) {
 	verifPoint("handleLoop:accepted")
 	p.connsMu.Lock()
@@ -250,6 +255,26 @@ func (p *Proxy) handleLoop(conn net.Conn) {
 		log.Errorf("martian: failed to create session: %v", err)
 		return
 	}
+
+	// Closing a connection on which the client is still sending (requests pipelined behind an
+	// exchange that closes) makes the kernel reset it, and a reset can destroy responses that
+	// were written but not yet read. Finish the write side first, then discard what the client
+	// sends until it closes too, or for a short while (a lingering close).
+	defer func() {
+		if s.Hijacked() {
+			return
+		}
+		c := s.connection()
+		cw, ok := c.(interface{ CloseWrite() error })
+		if !ok {
+			return
+		}
+		if err := cw.CloseWrite(); err != nil {
+			return
+		}
+		c.SetReadDeadline(time.Now().Add(lingerTimeout))
+		io.Copy(ioutil.Discard, c)
+	}()
 
 	ctx, err := withSession(s)
 	if err != nil {
